@@ -207,6 +207,10 @@ impl<P: Payload> Proc<P> {
 
     fn exec(&mut self, op: &Value) {
         let name = gs(op, "op").to_string();
+        if name == "barrier" {
+            sched::point(sched::H_BARRIER, 0, gu(op, "ph"), 0);
+            return;
+        }
         let h = gu(op, "h") as usize;
         let fi = gu(op, "f") as usize;
         let m = gu(op, "m") as u32;
@@ -689,7 +693,14 @@ pub fn run<P: Payload>(prog: &Value, strat: Strat) -> RunResult {
     drop(s0);
     drop(r0);
     let mut phase_of: Vec<u32> = procs.iter().map(|p| gu(p, "phase") as u32).collect();
-    let maxp = phase_of.iter().cloned().max().unwrap_or(0);
+    let mut maxp = phase_of.iter().cloned().max().unwrap_or(0);
+    for p in &procs {
+        for op in p["ops"].as_array().cloned().unwrap_or_default() {
+            if gs(&op, "op") == "barrier" {
+                maxp = maxp.max(gu(&op, "ph") as u32);
+            }
+        }
+    }
     phase_of.push(maxp + 1); // the epilogue closer
     sched::reset(n + 1, strat, phase_of);
     {
